@@ -7,8 +7,7 @@ open Bch Bch.Drive Bch.Model
 
 def cbTok : Except Bech32.CBErr Bytes → String
   | .ok b => "ok:" ++ Bytes.tok b
-  | .error .groups => "err:groups"
-  | .error .incomplete => "err:incomplete"
+  | .error _ => "err"
 
 def run : Runner
   | "b58enc", [_, b], _ => do
@@ -65,9 +64,7 @@ def run : Runner
     let s ← bytes? s
     pure { model := match Bech32.Decode s with
       | .ok (h, d) => s!"ok:{Bytes.tok h}:{Bytes.tok d}"
-      | .error e => "err:" ++ (match e with
-          | .length => "length" | .char => "char" | .mixedCase => "case" | .sep => "sep"
-          | .charset => "charset" | .checksum => "checksum") }
+      | .error _ => "err" }
   -- purity probe: the harness reports whether any byte reachable from the arguments changed
   | "pure", _, impl => pure { model := "unchanged", prop := if impl == "unchanged" then "ok" else "violated:argument memory modified" }
   | _, _, _ => none
